@@ -117,7 +117,7 @@ class Layout:
         self.rng = rng or random.Random(0)
         self.plain = plain
 
-    def case(self, name):
+    def case(self, name, cls=None):      # cls: occurrence class (see ClassLayout); ignored here
         if self.plain:
             return name
         r = self.rng.random()
@@ -136,12 +136,44 @@ class Layout:
         return (not self.plain) and self.rng.random() < p
 
 
+CASE_CLASSES = ('def', 'use', 'cfg', 'seed', 'file')
+CASE_MODES = ('lower', 'upper', 'cap', 'mixed')
+
+
+def apply_case(name, mode):
+    """The spelling of `name` under a case mode (the letters never change, only their case)."""
+    if mode == 'upper':
+        return name.upper()
+    if mode == 'cap':
+        return name.capitalize()
+    if mode == 'mixed':
+        return ''.join(ch.upper() if i % 2 else ch.lower() for i, ch in enumerate(name))
+    return name.lower()
+
+
+class ClassLayout(Layout):
+    """Plain layout in which the letter case of a name is decided by the *class* of the occurrence (C23):
+    def   names at their definition (MODULE / SUBROUTINE / END statements, module variables)
+    use   names where they are used (CALL, USE module, ONLY symbols, interface blocks)
+    cfg   configuration keys and disable/block/ignore entries
+    seed  seed routine names
+    file  file stems
+    classes: {class: mode}, mode in CASE_MODES (missing class = lower)."""
+
+    def __init__(self, classes=None):
+        super().__init__(None, True)
+        self.classes = dict(classes or {})
+
+    def case(self, name, cls=None):
+        return apply_case(name, self.classes.get(cls, 'lower'))
+
+
 def _use_stmt(imp, lay, indent):
     kw = lay.kw('use')
-    mod = lay.case(imp['mod'])
+    mod = lay.case(imp['mod'], 'use')
     if not imp['only']:
         return [f'{indent}{kw} {mod}']
-    syms = [lay.case(s) for s in imp['only']]
+    syms = [lay.case(s, 'use') for s in imp['only']]
     sep = ', ' if not lay.coin(0.3) else ','
     if len(syms) > 1 and lay.coin(0.3):
         # continuation line inside the ONLY list
@@ -150,19 +182,23 @@ def _use_stmt(imp, lay, indent):
     return [f'{indent}{kw} {mod},{" " if not lay.coin(0.2) else ""}{lay.kw("only")}{colon}{sep.join(syms)}']
 
 
-def _render_proc(proc, lay, indent):
+def _render_proc(proc, lay, indent, iface=()):
     name = proc['name']
     lines = []
     prefix = ''
     if name in proc['calls']:
         prefix = lay.kw('recursive') + ' '
     sub = lay.kw('subroutine')
-    lines.append(f'{indent}{prefix}{sub} {lay.case(name)}(a)')
+    lines.append(f'{indent}{prefix}{sub} {lay.case(name, "def")}(a)')
     ind2 = indent + '  '
     for imp in proc['imports']:
         lines += _use_stmt(imp, lay, ind2)
     lines.append(f'{ind2}{lay.kw("implicit none")}')
     lines.append(f'{ind2}{lay.kw("integer")}, {lay.kw("intent")}(inout) :: a')
+    for c in iface:         # explicit interface blocks for called free procedures (render_project(..., iface=True))
+        lines += [f'{ind2}{lay.kw("interface")}', f'{ind2}  {lay.kw("subroutine")} {lay.case(c, "use")}(a)',
+                  f'{ind2}    {lay.kw("integer")}, {lay.kw("intent")}(inout) :: a',
+                  f'{ind2}  {lay.kw("end subroutine")} {lay.case(c, "use")}', f'{ind2}{lay.kw("end interface")}']
     if lay.coin(0.3):
         lines.append(f'{ind2}! call decoy_in_comment(a)')
     if lay.coin(0.2):
@@ -172,7 +208,7 @@ def _render_proc(proc, lay, indent):
     if calls and lay.coin(0.3):
         calls.append(lay.rng.choice(calls))       # duplicate call statement: still one dependency
     for c in calls:
-        stmt = f'{lay.kw("call")} {lay.case(c)}{" " if lay.coin(0.2) else ""}(a)'
+        stmt = f'{lay.kw("call")} {lay.case(c, "use")}{" " if lay.coin(0.2) else ""}(a)'
         guard = c == name   # recursion must terminate syntactically sensible; always guard self calls
         style = 0 if lay.plain else lay.rng.randrange(4)
         if guard or style == 1:
@@ -182,18 +218,33 @@ def _render_proc(proc, lay, indent):
         elif style == 2:
             lines.append(f'{ind2}{lay.kw("if")} (a > 100) {stmt}')
         elif style == 3 and lay.coin(0.5):
-            lines.append(f'{ind2}{lay.kw("call")} {lay.case(c)}( &')
+            lines.append(f'{ind2}{lay.kw("call")} {lay.case(c, "use")}( &')
             lines.append(f'{ind2}   & a)')
         else:
             lines.append(f'{ind2}{stmt}')
-    end = f'{lay.kw("end subroutine")} {lay.case(name)}' if not lay.coin(0.2) else lay.kw('end subroutine')
+    end = f'{lay.kw("end subroutine")} {lay.case(name, "def")}' if not lay.coin(0.2) else lay.kw('end subroutine')
     lines.append(f'{indent}{end}')
     return lines
 
 
-def render_project(project, root, rng=None, plain=False, suffixes=None, subdirs=None):
-    """Write the project below `root`; returns {file id: path}. One Fortran file per distinct `file` id."""
-    lay = Layout(rng, plain)
+def free_callees(project, proc):
+    """Called names of `proc` that denote free procedures (not itself, not a sibling, not imported by an ONLY list;
+    empty if an unqualified import is visible): the names that may be declared in an explicit interface block."""
+    free = {p['name'] for p in project['procs'] if not p['mod']}
+    host = next((m['imports'] for m in project['mods'] if m['name'] == proc['mod']), []) if proc['mod'] else []
+    visible = list(proc['imports']) + list(host)
+    if any(not im['only'] for im in visible):
+        return []
+    imported = {s for im in visible for s in im['only']}
+    siblings = {p['name'] for p in project['procs'] if p['mod'] == proc['mod']} if proc['mod'] else set()
+    return [c for c in dict.fromkeys(proc['calls']) if c in free and c != proc['name'] and c not in siblings and c not in imported]
+
+
+def render_project(project, root, rng=None, plain=False, suffixes=None, subdirs=None, layout=None, iface=False):
+    """Write the project below `root`; returns {file id: path}. One Fortran file per distinct `file` id.
+    layout: a ready Layout object (e.g. ClassLayout) instead of rng/plain; iface: declare called free procedures
+    in explicit interface blocks."""
+    lay = layout or Layout(rng, plain)
     files = {}
     order = []
     for m in project['mods']:
@@ -214,32 +265,32 @@ def render_project(project, root, rng=None, plain=False, suffixes=None, subdirs=
         if lay.coin(0.3):
             lines.append('! generated test project file')
         for m in files[fid]['mods']:
-            lines.append(f'{lay.kw("module")} {lay.case(m["name"])}')
+            lines.append(f'{lay.kw("module")} {lay.case(m["name"], "def")}')
             for imp in m['imports']:
                 lines += _use_stmt(imp, lay, '  ')
             lines.append(f'  {lay.kw("implicit none")}')
             for v in m['vars']:
                 if v in m.get('params', []):
-                    lines.append(f'  {lay.kw("integer")}, {lay.kw("parameter")} :: {lay.case(v)} = 1')
+                    lines.append(f'  {lay.kw("integer")}, {lay.kw("parameter")} :: {lay.case(v, "def")} = 1')
                 else:
-                    lines.append(f'  {lay.kw("integer")} :: {lay.case(v)} = 1')
+                    lines.append(f'  {lay.kw("integer")} :: {lay.case(v, "def")} = 1')
             mprocs = [p for p in project['procs'] if p['mod'] == m['name']]
             if mprocs:
                 lines.append(lay.kw('contains'))
                 for p in mprocs:
-                    lines += _render_proc(p, lay, '  ')
+                    lines += _render_proc(p, lay, '  ', free_callees(project, p) if iface else ())
                     if lay.coin(0.5):
                         lines.append('')
-            lines.append(f'{lay.kw("end module")} {lay.case(m["name"])}')
+            lines.append(f'{lay.kw("end module")} {lay.case(m["name"], "def")}')
             lines.append('')
         for p in files[fid]['procs']:
-            lines += _render_proc(p, lay, '')
+            lines += _render_proc(p, lay, '', free_callees(project, p) if iface else ())
             lines.append('')
         suf = (suffixes or {}).get(fid) or ('.F90' if lay.coin(0.4) else '.f90')
         sub = (subdirs or {}).get(fid) or ('' if not lay.coin(0.4) else lay.rng.choice(['src', 'module', 'src/deep']))
         d = os.path.join(root, sub)
         os.makedirs(d, exist_ok=True)
-        path = os.path.join(d, lay.case(fid) + suf)
+        path = os.path.join(d, lay.case(fid, 'file') + suf)
         with open(path, 'w') as fh:
             fh.write('\n'.join(lines) + '\n')
         paths[fid] = path
@@ -247,7 +298,7 @@ def render_project(project, root, rng=None, plain=False, suffixes=None, subdirs=
 
 
 def _keys(lst, lay):
-    return [lay.case(k['s']) for k in lst]
+    return [lay.case(k['s'], 'cfg') for k in lst]
 
 
 def render_config(config, lay=None, enable_imports=True, strict=True):
@@ -270,8 +321,8 @@ def render_config(config, lay=None, enable_imports=True, strict=True):
             e['role'] = r['role']
         if r['hasMode']:
             e['mode'] = r['mode']
-        routines[lay.case(r['key'])] = e
-    seeds = [lay.case(f"{s['scope']}#{s['local']}" if s['q'] else s['local']) for s in config['seeds']]
+        routines[lay.case(r['key'], 'cfg')] = e
+    seeds = [lay.case(f"{s['scope']}#{s['local']}" if s['q'] else s['local'], 'seed') for s in config['seeds']]
     return {'default': default, 'routines': routines}, seeds
 
 
@@ -594,3 +645,93 @@ def seeded_pairs(ctx, n, rng=None):
     if len(legal) < n * 0.6:
         raise core.MachineryError(f'seeded generator yield too low: {len(legal)} legal of {len(cands)}')
     return legal[:n], f'{len(legal)}/{len(cands)}'
+
+
+# ---------------------------------------------------------------------------------------------
+# C23 / C24 / C25: item-changing transformations, IR-level projection of the scheduler state
+#
+# abstract operation record (every field always present):
+#   {"op": "dep" | "wrap" | "dup" | "rm", "k": kernel local name ("" for dep/wrap), "sfx": suffix,
+#    "msfx": module suffix ("" = none), "sub": duplicate_subgraph}
+
+def op_record(op, k='', sfx='', msfx='', sub=False):
+    return {'op': op, 'k': k, 'sfx': sfx, 'msfx': msfx, 'sub': bool(sub)}
+
+
+def make_transformation(op):
+    """The real Loki transformation object of an abstract operation record."""
+    from loki.transformations.dependency import DuplicateKernel, RemoveKernel
+    from loki.transformations.build_system import DependencyTransformation, ModuleWrapTransformation
+    if op['op'] == 'dep':
+        return DependencyTransformation(suffix=op['sfx'], module_suffix=op['msfx'] or None)
+    if op['op'] == 'wrap':
+        return ModuleWrapTransformation(module_suffix=op['msfx'])
+    if op['op'] == 'dup':
+        return DuplicateKernel(duplicate_kernels=(op['k'],), duplicate_suffix=op['sfx'],
+                               duplicate_module_suffix=op['msfx'] or None, duplicate_subgraph=op['sub'])
+    if op['op'] == 'rm':
+        return RemoveKernel(remove_kernels=(op['k'],))
+    raise ValueError(op)
+
+
+def codes(s):
+    return [ord(ch) for ch in s]
+
+
+def tokens(text):
+    import re
+    return re.findall(r'[A-Za-z_][A-Za-z_0-9]*|\d+|\S', text)
+
+
+class Interner:
+    """raw spelling -> 1-based index into a table of character-code sequences (for the TLA+ side)."""
+
+    def __init__(self):
+        self.index = {}
+        self.table = []
+
+    def __call__(self, s):
+        if s not in self.index:
+            self.table.append(codes(s))
+            self.index[s] = len(self.table)
+        return self.index[s]
+
+
+def graph_files(sched):
+    """The distinct Sourcefile objects of the items in the scheduler graph, in graph order."""
+    seen, out = set(), []
+    for it in sched.items:
+        src = getattr(it, 'source', None)
+        if src is not None and id(src) not in seen:
+            seen.add(id(src))
+            out.append(src)
+    return out
+
+
+def _unit_record(routine, fkey):
+    from loki.ir import FindNodes, CallStatement, Interface
+    from loki.subroutine import Subroutine
+    calls = list(dict.fromkeys(str(c.name).lower() for c in FindNodes(CallStatement).visit(routine.body)))
+    imports = [{'mod': str(i.module).lower(), 'only': [str(s).lower() for s in (i.symbols or ())]}
+               for i in routine.imports if not i.c_import]
+    ifaces = [b.name.lower() for i in FindNodes(Interface).visit(routine.spec) for b in i.body if isinstance(b, Subroutine)]
+    return {'name': routine.name.lower(), 'mod': routine.parent.name.lower() if routine.parent is not None else '',
+            'file': fkey, 'imports': imports, 'calls': calls, 'ifaces': ifaces}
+
+
+def project_of_sources(sources, keys=None):
+    """Abstract project (format of this module + `ifaces` per procedure) recovered from the IR of Sourcefile objects
+    (no text matching): modules with module-level imports and variables, module procedures and free procedures."""
+    mods, procs = [], []
+    for n, src in enumerate(sources):
+        fkey = (keys or {}).get(id(src), f's{n + 1}')
+        for m in src.modules:
+            mods.append({'name': m.name.lower(), 'file': fkey,
+                         'imports': [{'mod': str(i.module).lower(), 'only': [str(s).lower() for s in (i.symbols or ())]}
+                                     for i in m.imports if not i.c_import],
+                         'vars': [v.name.lower() for v in m.variables], 'params': []})
+            for r in m.subroutines:
+                procs.append(_unit_record(r, fkey))
+        for r in src.subroutines:
+            procs.append(_unit_record(r, fkey))
+    return {'mods': mods, 'procs': procs}
